@@ -335,3 +335,112 @@ def check_linearizable(chk, specdir, hists, chunks=4, timeout=900):
             for e in errs:
                 chk.inconclusive.append("KVLin: " + str(e)[:400])
     return bad
+
+
+def safety(chk, pid, table, drv, tier, extra_invariants=(), extra_module=None, hist_step="", use_init="Init", reset_extra=""):
+    """P-level check of one generated system: (1) TLC on the shipped spec with its invariants on the
+    table's small instances (design level); (2) the complete state graph reached by the generated code
+    and (3) seeded executions under the real Run loop: the spec's invariants / action properties are
+    evaluated by TLC in every real-code state (conformance of the steps is C02's business: here a state
+    TLC cannot take is drift). Go-side failures (assertion failures, panics of generated code) are violations.
+    extra_module: a module EXTENDING the spec (e.g. <Sys>Obs with history variables), copied from spec/<pid>."""
+    name = table["name"]
+    work = os.path.join(chk.tmp, "safety-" + name)
+    text = prepare_spec(chk, table, work)
+    module = table["module"]
+    variables = T.extract_vars(text)
+    invs = list(table.get("invariants", [])) + list(extra_invariants)
+    props = list(table.get("properties", []))
+    vmodule = module
+    if extra_module:
+        V.copy_specs(os.path.join(V.SPEC, pid), work, names=[extra_module + ".tla"])
+        vmodule = extra_module
+    inv_args = table.get("invariant_args", "")
+    stats = {"design": [], "bfs": [], "random": []}
+
+    def with_inv_args(args):
+        if not inv_args:
+            return args
+        d = _args_dict(args)
+        d.update(_args_dict(inv_args))
+        return ",".join("%s=%s" % kv for kv in d.items())
+
+    # (1) design level
+    for cfg in table.get("design", {}).get(tier, table.get("bfs", {}).get(tier, [])):
+        n = cfg["n"]
+        args = with_inv_args(cfg.get("args", ""))
+        cs = subst_consts(table, n, args, cfg.get("consts_override"))
+        cfgname = "design_n%d.cfg" % n
+        body = "CONSTANTS\n" + "".join("  %s = %s\n" % kv for kv in cs.items())
+        body += "INIT %s\nNEXT %s\nCHECK_DEADLOCK FALSE\n" % (use_init if extra_module else "Init", ("HNext" if (extra_module and hist_step) else "Next"))
+        for i in invs:
+            body += "INVARIANT %s\n" % i
+        for p in props:
+            body += "PROPERTY %s\n" % p
+        if cfg.get("constraint"):
+            body += "CONSTRAINT %s\n" % cfg["constraint"]
+        open(os.path.join(work, cfgname), "w").write(body)
+        if cfg.get("mode") == "simulate":
+            for i, r in enumerate(V.tlc_simulate_budget(work, vmodule, cfgname, cfg.get("budget", 60), cfg.get("depth", 100), chk.seed, workers=8)):
+                chk.add_tlc("%s design n=%d simulation (%s)" % (name, n, "probe" if i == 0 else "main"), r)
+        else:
+            r = V.tlc(work, vmodule, cfg=cfgname, workers=cfg.get("workers", 8), timeout=cfg.get("timeout", 1500), deadlock=False)
+            chk.add_tlc("%s design n=%d exhaustive %s" % (name, n, invs + props), r)
+            stats["design"].append({"n": n, "distinct": r.distinct, "ok": r.ok})
+    kw = dict(conform=False, hist_step=hist_step, use_init=use_init, reset_extra=reset_extra)
+
+    def judge(runs_or_walks, metas, cs, what):
+        res = T.validate_runs(work, vmodule, variables, runs_or_walks, cs, invs, props, chunks=8, timeout=2400, **kw)
+        chk.states += res["states"]; chk.transitions += res["transitions"]; chk.traces += res["accepted"]
+        for e in res["errors"]:
+            chk.inconclusive.append("%s %s: %s" % (name, what, e[-600:]))
+        for rj in res["rejected"]:
+            if rj["kind"] == "stuck":
+                chk.drift.append({"system": name, "what": what, "state_index": rj["state_index"], "text": rj["text"]})
+                continue
+            inv = next((i for i in invs + props if i in rj["text"]), "property")
+            run = runs_or_walks[rj["run_index"]]
+            st = run[rj["state_index"] - 1] if rj["state_index"] <= len(run) else None
+            chk.violation("%s:%s:%s:%s" % (pid, name, inv, what.split()[0]),
+                          "%s (%s): %s in a state reached by the generated code (state %d)" % (name, what, rj["text"], rj["state_index"]),
+                          {"system": name, "what": what, "tlc": rj["text"], "state_index": rj["state_index"], "state": st,
+                           "meta": metas[rj["run_index"]] if metas else None})
+        return res
+
+    # (2) complete Go graph
+    for cfg in table.get("bfs", {}).get(tier, []):
+        n = cfg["n"]
+        args = with_inv_args(cfg.get("args", ""))
+        cs = subst_consts(table, n, args, cfg.get("consts_override"))
+        out = drive(chk, drv, name, n, "bfs", 0, cfg.get("max_states", 60000), args=args, tag="-sbfs")
+        g = T.load_graph(out)
+        for e in g["errors"]:
+            chk.violation("%s:%s:go-error:%s" % (pid, name, e.get("label")),
+                          "%s n=%d: generated code failed (assertion / panic) from a reachable state at label %s: %s" % (name, n, e.get("label"), e.get("msg")), e)
+        walks = T.graph_walks(g)
+        tot, keep = 0, []
+        for w in walks:
+            if tot + len(w) > 25000:
+                break
+            keep.append(w); tot += len(w)
+        judge(keep, None, cs, "graph n=%d" % n)
+        stats["bfs"].append({"n": n, "go": [g["summary"]["states"], g["summary"]["edges"]], "walks": len(keep), "complete": g["summary"].get("complete")})
+        if keep:
+            chk.sample({"system": name, "kind": "graph walk", "n": n, "first_states": keep[-1][:2]})
+    # (3) executions under Run
+    for cfg in table.get("random", {}).get(tier, []):
+        n = cfg["n"]
+        args = with_inv_args(cfg.get("args", ""))
+        cs = subst_consts(table, n, args, cfg.get("consts_override"))
+        out = drive(chk, drv, name, n, cfg.get("policy", "random"), cfg["runs"], cfg["steps"], args=args, tag="-srnd")
+        rs = T.load_steps(out)
+        for r in rs:
+            for e in r["errors"]:
+                chk.violation("%s:%s:go-error:%s" % (pid, name, e.get("label")),
+                              "%s n=%d: generated code failed during an execution at label %s: %s" % (name, n, e.get("label"), e.get("msg")),
+                              {"system": name, "meta": r["meta"], "error": e, "schedule": schedule_of(r, 400)})
+        judge([r["states"] for r in rs], [dict(r["meta"], schedule=schedule_of(r, 60)) for r in rs], cs, "run n=%d" % n)
+        stats["random"].append({"n": n, "runs": len(rs), "states": sum(len(r["states"]) for r in rs)})
+        if rs:
+            chk.sample({"system": name, "kind": "execution under Run", "n": n, "seed": rs[0]["meta"].get("seed"), "schedule_prefix": schedule_of(rs[0], 10)})
+    return stats
